@@ -17,7 +17,7 @@ RULE = (
     "complete product of: clamped cantilevers over rod formulations {Quaternion p=1,2,3; SE3; R12 p=1,2} x {displacement-based, mixed} x "
     "constraint sets {None,[1,2],[0,1,2],[1,2,4,5],[0..5]} x nel x tip loads {force -e2,+e2,e3,generic; body moment e3,generic; both; "
     "displacement-controlled tip support without/with force} x load steps x solver options {tight 1e-10, default 1e-6}; large loads x "
-    "{2,3,30 Newton iterations} for natural early stops; cantilever tip against a frictionless plane; point mass on three springs over a "
+    "{2,3,30 Newton iterations} for natural early stops, also with dead loads (not scaled with the load factor: a stop in the very first load step); cantilever tip against a frictionless plane; point mass on three springs over a "
     "plane (5 load paths x force/compliance springs x stiff/soft, progress bar on for > 1 load step); rigid body on a revolute joint with torsional spring with/without plane "
     "contact; Riks on the 1-DOF truss (la_arc0 x iter_goal x max_load_steps), on cantilevers and on the point-mass scene; every problem "
     "solved in each rigid placement {I, quarter turn about e3, generic rotation+translation (+ quarter turn about e1, half turn, "
@@ -114,6 +114,12 @@ def cases(tier, seed):
     # natural early stops: large loads, few Newton iterations / large load steps
     for form in _forms(2, cons_list=[None] if not thorough else [None, [1, 2]]):
         for load in ("Fbig", "FMbig"):
+            for n in (1, 3):
+                for opts in ("few2", "few3", "tight"):
+                    add(kind="cantilever", form=form, load=load, nsteps=n, opts=opts, places=P3)
+    # dead loads (not scaled with t): the first load step is a real solve and may be the one that fails
+    for form in _forms(2, cons_list=[None] if not thorough else [None, [1, 2]]):
+        for load in ("deadFbig", "deadFM"):
             for n in (1, 3):
                 for opts in ("few2", "few3", "tight"):
                     add(kind="cantilever", form=form, load=load, nsteps=n, opts=opts, places=P3)
